@@ -546,31 +546,39 @@ theorem populate_sets (gen : Nat → String) (hgen : ∀ k, gen k ≠ "") (inp :
       · simpa only [populate, List.foldl_cons] using hk2
       · simpa only [populate, List.foldl_cons] using hk3
 
+theorem startObj_of_ne_none (mode : Mode) (obj : Req) (h : mode ≠ .none) : startObj mode obj = obj := by
+  simp [startObj, h]
+
+theorem startObj_none (obj : Req) : startObj .none obj = [] := by simp [startObj]
+
 theorem call_eq (gen : Nat → String) (m : Method) (s : Option Settings) (path : Path) (mode : Mode)
     (obj : Req) (ctr : Nat) :
     call gen m s path mode obj ctr =
-      (some (populate gen m.input (fieldsOf s) (obj, ctr)).1,
-       (if mode = .inst then (populate gen m.input (fieldsOf s) (obj, ctr)).1 else obj),
-       (populate gen m.input (fieldsOf s) (obj, ctr)).2) := by
-  cases path <;> simp [call, pipeline, syncBody, exec]
+      (some (populate gen m.input (fieldsOf s) (startObj mode obj, ctr)).1,
+       (if mode = .inst then (populate gen m.input (fieldsOf s) (startObj mode obj, ctr)).1 else obj),
+       (populate gen m.input (fieldsOf s) (startObj mode obj, ctr)).2) := by
+  cases path <;> simp [call, pipeline, syncBody, asyncBody, exec]
+
+theorem populate_nil_fields (gen : Nat → String) (inp : List Field) (st : Req × Nat) : populate gen inp [] st = st := rfl
 
 end AuxPop
 
 /-- **The macro runs on every call path, after the request object is complete and before it is sent**:
-the sync client, the asyncio client and REST (= the sync client over the REST transport) all hand the
-transport `populate(request)`. (Structural on the model's statement lists; tied to the templates by the
-harness's scan of the emitted method bodies and by T3 on all three paths.) -/
+the sync client, the asyncio client, REST (= the sync client over the REST transport) and rest_asyncio
+(= the asyncio client over the async REST transport) all hand the transport `populate(request)`.
+(Structural on the model's statement lists; tied to the templates by the harness's scan of the emitted
+method bodies and by T3 on all four paths.) -/
 theorem macro_on_all_paths (gen : Nat → String) (m : Method) (s : Option Settings) (path : Path) (mode : Mode)
     (obj : Req) (ctr : Nat) :
-    (call gen m s path mode obj ctr).1 = some (populate gen m.input (fieldsOf s) (obj, ctr)).1 ∧
+    (call gen m s path mode obj ctr).1 = some (populate gen m.input (fieldsOf s) (startObj mode obj, ctr)).1 ∧
     (pipeline path).filter (fun x => x = .populate ∨ x = .send) = [.populate, .send] ∧
-    pipeline .rest = pipeline .sync := by
-  refine ⟨by rw [call_eq], ?_, rfl⟩
+    pipeline .rest = pipeline .sync ∧ pipeline .restAsyncio = pipeline .asyncio := by
+  refine ⟨by rw [call_eq], ?_, rfl, rfl⟩
   cases path <;> decide
 
 /-- the request a call sends (it always sends one) -/
-def sent (gen : Nat → String) (m : Method) (s : Option Settings) (_path : Path) (_mode : Mode) (obj : Req) (ctr : Nat) : Req :=
-  (populate gen m.input (fieldsOf s) (obj, ctr)).1
+def sent (gen : Nat → String) (m : Method) (s : Option Settings) (_path : Path) (mode : Mode) (obj : Req) (ctr : Nat) : Req :=
+  (populate gen m.input (fieldsOf s) (startObj mode obj, ctr)).1
 
 theorem call_sends (gen : Nat → String) (m : Method) (s : Option Settings) (path : Path) (mode : Mode)
     (obj : Req) (ctr : Nat) : (call gen m s path mode obj ctr).1 = some (sent gen m s path mode obj ctr) := by
@@ -579,42 +587,56 @@ theorem call_sends (gen : Nat → String) (m : Method) (s : Option Settings) (pa
 /-- **Populated iff unset.** For a listed field of an accepted method: if the caller left it unset
 (proto3-optional: not present; plain: not present or empty) the request that is sent carries a value
 drawn from `uuid4` during this very call; otherwise it carries exactly the caller's state.
+`startObj mode obj` is what the caller handed over (`obj`, or nothing at all when `mode = none`).
 `hgen`: `str(uuid.uuid4())` is never the empty string. -/
 theorem populate_iff_unset (gen : Nat → String) (hgen : ∀ k, gen k ≠ "") (m : Method) (s : Settings)
     (path : Path) (mode : Mode) (obj : Req) (ctr : Nat) (f : String) (fd : Field)
     (hf : f ∈ s.fields) (hfd : getField m.input f = some fd) :
-    (needsId fd obj = true →
+    (needsId fd (startObj mode obj) = true →
         ∃ k, ctr ≤ k ∧ k < (call gen m (some s) path mode obj ctr).2.2 ∧
           (sent gen m (some s) path mode obj ctr).lookup f = some (gen k)) ∧
-    (needsId fd obj = false → (sent gen m (some s) path mode obj ctr).lookup f = obj.lookup f) := by
+    (needsId fd (startObj mode obj) = false →
+        (sent gen m (some s) path mode obj ctr).lookup f = (startObj mode obj).lookup f) := by
   constructor
   · intro hn
     rw [call_eq]
-    exact populate_sets gen hgen m.input f fd hfd s.fields (obj, ctr) hf hn
+    exact populate_sets gen hgen m.input f fd hfd s.fields (startObj mode obj, ctr) hf hn
   · intro hn
-    exact populate_keeps gen m.input f s.fields (obj, ctr) (Or.inr (Or.inr ⟨fd, hfd, hn⟩))
+    exact populate_keeps gen m.input f s.fields (startObj mode obj, ctr) (Or.inr (Or.inr ⟨fd, hfd, hn⟩))
+
+/-- a call without a request and without keyword arguments gets an id in EVERY listed field -/
+theorem none_mode_populates_all (gen : Nat → String) (hgen : ∀ k, gen k ≠ "") (m : Method) (s : Settings)
+    (path : Path) (obj : Req) (ctr : Nat) (f : String) (fd : Field)
+    (hf : f ∈ s.fields) (hfd : getField m.input f = some fd) :
+    ∃ k, ctr ≤ k ∧ k < (call gen m (some s) path .none obj ctr).2.2 ∧
+      (sent gen m (some s) path .none obj ctr).lookup f = some (gen k) := by
+  refine (populate_iff_unset gen hgen m s path .none obj ctr f fd hf hfd).1 ?_
+  rw [startObj_none]
+  unfold needsId needs
+  cases fd.optional <;> simp
 
 /-- **A caller-provided value is never altered**: a present proto3-optional field (even empty) and a
 non-empty plain field reach the transport unchanged, on every path and in every calling mode. -/
 theorem provided_value_kept (gen : Nat → String) (m : Method) (s : Option Settings) (path : Path) (mode : Mode)
     (obj : Req) (ctr : Nat) (f : String) (fd : Field) (v : String)
-    (hfd : getField m.input f = some fd) (hv : obj.lookup f = some v) (hset : fd.optional = true ∨ v ≠ "") :
+    (hfd : getField m.input f = some fd) (hv : (startObj mode obj).lookup f = some v)
+    (hset : fd.optional = true ∨ v ≠ "") :
     (sent gen m s path mode obj ctr).lookup f = some v := by
   have hname := getField_name hfd
-  have hn : needsId fd obj = false := by
+  have hn : needsId fd (startObj mode obj) = false := by
     unfold needsId needs
     rw [hname, hv]
     rcases hset with h | h
     · simp [h]
     · cases fd.optional <;> simp [h]
   rw [← hv]
-  exact populate_keeps gen m.input f _ (obj, ctr) (Or.inr (Or.inr ⟨fd, hfd, hn⟩))
+  exact populate_keeps gen m.input f _ (startObj mode obj, ctr) (Or.inr (Or.inr ⟨fd, hfd, hn⟩))
 
 /-- fields that are not listed are not touched (in particular nothing at all happens without settings) -/
 theorem other_fields_untouched (gen : Nat → String) (m : Method) (s : Option Settings) (path : Path) (mode : Mode)
     (obj : Req) (ctr : Nat) (f : String) (hf : f ∉ fieldsOf s) :
-    (sent gen m s path mode obj ctr).lookup f = obj.lookup f :=
-  populate_keeps gen m.input f _ (obj, ctr) (Or.inl hf)
+    (sent gen m s path mode obj ctr).lookup f = (startObj mode obj).lookup f :=
+  populate_keeps gen m.input f _ (startObj mode obj, ctr) (Or.inl hf)
 
 /-- **Fresh per call**: two calls that both populate the field, the second starting where any later
 point of the uuid stream is, send different ids — provided `uuid4` itself does not repeat (`hinj`) and the
@@ -623,7 +645,7 @@ theorem fresh_across_calls (gen : Nat → String) (hgen : ∀ k, gen k ≠ "") (
     (m : Method) (s : Settings) (p1 p2 : Path) (m1 m2 : Mode) (o1 o2 : Req) (c1 c2 : Nat)
     (f : String) (fd : Field) (hf : f ∈ s.fields) (hfd : getField m.input f = some fd)
     (hc : (call gen m (some s) p1 m1 o1 c1).2.2 ≤ c2)
-    (hn1 : needsId fd o1 = true) (hn2 : needsId fd o2 = true) :
+    (hn1 : needsId fd (startObj m1 o1) = true) (hn2 : needsId fd (startObj m2 o2) = true) :
     (sent gen m (some s) p1 m1 o1 c1).lookup f ≠ (sent gen m (some s) p2 m2 o2 c2).lookup f := by
   obtain ⟨k1, _, hk1, e1⟩ := (populate_iff_unset gen hgen m s p1 m1 o1 c1 f fd hf hfd).1 hn1
   obtain ⟨k2, hk2, _, e2⟩ := (populate_iff_unset gen hgen m s p2 m2 o2 c2 f fd hf hfd).1 hn2
@@ -633,11 +655,12 @@ theorem fresh_across_calls (gen : Nat → String) (hgen : ∀ k, gen k ≠ "") (
   omega
 
 /-- In `inst` mode the object that is populated IS the caller's object: after the call the caller's
-request carries the generated id … -/
+request carries the generated id; in every other mode the caller's object/dict is left alone. -/
 theorem inst_mode_mutates_caller (gen : Nat → String) (m : Method) (s : Option Settings) (path : Path)
     (obj : Req) (ctr : Nat) :
     (call gen m s path .inst obj ctr).2.1 = sent gen m s path .inst obj ctr ∧
-    (call gen m s path .dict obj ctr).2.1 = obj ∧ (call gen m s path .kwargs obj ctr).2.1 = obj := by
+    (call gen m s path .dict obj ctr).2.1 = obj ∧ (call gen m s path .kwargs obj ctr).2.1 = obj ∧
+    (call gen m s path .none obj ctr).2.1 = obj := by
   simp [call_eq, sent]
 
 /-- … so a second call with the same request instance finds the field set and sends the SAME id again
@@ -647,9 +670,12 @@ theorem instance_reuse_same_id (gen : Nat → String) (hgen : ∀ k, gen k ≠ "
     (hf : f ∈ s.fields) (hfd : getField m.input f = some fd) (hn : needsId fd obj = true) :
     (sent gen m (some s) p2 .inst (call gen m (some s) p1 .inst obj c1).2.1 c2).lookup f
       = (sent gen m (some s) p1 .inst obj c1).lookup f := by
-  obtain ⟨k, _, _, e⟩ := (populate_iff_unset gen hgen m s p1 .inst obj c1 f fd hf hfd).1 hn
+  have hs : ∀ o, startObj .inst o = o := fun o => startObj_of_ne_none .inst o (by decide)
+  obtain ⟨k, _, _, e⟩ := (populate_iff_unset gen hgen m s p1 .inst obj c1 f fd hf hfd).1 (by rw [hs]; exact hn)
   rw [(inst_mode_mutates_caller gen m (some s) p1 obj c1).1]
   have hname := getField_name hfd
+  show (populate gen m.input s.fields (startObj .inst (sent gen m (some s) p1 .inst obj c1), c2)).1.lookup f = _
+  rw [hs]
   refine populate_keeps gen m.input f _ _ (Or.inr (Or.inr ⟨fd, hfd, ?_⟩))
   unfold needsId needs
   rw [hname]
@@ -657,6 +683,76 @@ theorem instance_reuse_same_id (gen : Nat → String) (hgen : ∀ k, gen k ≠ "
         else ((sent gen m (some s) p1 .inst obj c1).lookup f).getD "" == "") = false
   rw [e]
   cases fd.optional <;> simp [hgen k]
+
+/-! ### Which settings a method sees, and the `import uuid` gate -/
+
+/-- the macro looks the settings up by the method's own selector: an entry for another method is never
+used (the same field name may be listed for two methods; each gets its own list) -/
+theorem settingsFor_selector (ss : List Settings) (sel : String) (s : Settings)
+    (h : settingsFor ss sel = some s) : s.selector = sel ∧ s ∈ ss := by
+  unfold settingsFor at h
+  have hm := List.mem_of_getLast? h
+  rw [List.mem_filter] at hm
+  exact ⟨by simpa using hm.2, hm.1⟩
+
+/-- in an accepted list (no selector twice) every entry is the one its method sees, in whatever order the
+entries were written -/
+theorem settingsFor_of_nodup (ss : List Settings) (s : Settings)
+    (hnd : (ss.map (·.selector)).Nodup) (hs : s ∈ ss) : settingsFor ss s.selector = some s := by
+  unfold settingsFor
+  rw [filter_selector_of_nodup ss s hnd hs]
+  rfl
+
+/-- a method no entry names sees no settings: nothing is populated, no uuid is drawn -/
+theorem no_settings_no_population (gen : Nat → String) (ss : List Settings) (m : Method) (path : Path) (mode : Mode)
+    (obj : Req) (ctr : Nat) (h : ∀ s ∈ ss, s.selector ≠ m.selector) :
+    call gen m (settingsFor ss m.selector) path mode obj ctr = (some (startObj mode obj), (if mode = .inst then startObj mode obj else obj), ctr) := by
+  have : settingsFor ss m.selector = none := by
+    unfold settingsFor
+    have : ss.filter (fun s => s.selector == m.selector) = [] := by
+      rw [List.filter_eq_nil_iff]
+      intro s hs
+      simpa using h s hs
+    rw [this]; rfl
+  rw [this, call_eq]
+  rfl
+
+/-- **`uuid` is imported whenever the macro can evaluate `uuid.uuid4()`**: a call in a library generated
+with ANY settings list never fails with `NameError` — the gate is true as soon as the list has an entry, and
+a uuid is only drawn for a method that has an entry. (Round-2 seed: gate on the first entry only.) -/
+theorem no_name_error (gen : Nat → String) (ss : List Settings) (m : Method) (path : Path) (mode : Mode)
+    (obj : Req) (ctr : Nat) :
+    callChecked gen ss m path mode obj ctr = (call gen m (settingsFor ss m.selector) path mode obj ctr).1 := by
+  unfold callChecked
+  cases ss with
+  | nil =>
+    have : settingsFor [] m.selector = none := rfl
+    simp [this, call_eq, fieldsOf, populate_nil_fields]
+  | cons a l => simp [importsUuid]
+
+theorem importsUuid_iff (ss : List Settings) : importsUuid ss = true ↔ ss ≠ [] := by
+  cases ss <;> simp [importsUuid]
+
+/-- the gate does not depend on the ORDER of the entries nor on which entry lists fields -/
+theorem importsUuid_of_any_fields (ss : List Settings) (h : ∃ s ∈ ss, s.fields ≠ []) : importsUuid ss = true := by
+  obtain ⟨s, hs, _⟩ := h
+  exact (importsUuid_iff ss).mpr (List.ne_nil_of_mem hs)
+
+/-! ### Paginated methods -/
+
+/-- every request of a paginated call carries the id of the first one (and every other field but the
+page token): the follow-up requests are not new calls -/
+theorem pages_keep_id (first : Req) (tokens : List String) (f : String) (hf : f ≠ "page_token") :
+    ∀ r ∈ pageRequests first tokens, r.lookup f = first.lookup f := by
+  intro r hr
+  unfold pageRequests at hr
+  rcases List.mem_cons.mp hr with e | hr
+  · rw [e]
+  · obtain ⟨t, _, e⟩ := List.mem_map.mp hr
+    rw [← e, Req.set, lookup_assign_other _ _ _ _ hf]
+
+theorem pages_count (first : Req) (tokens : List String) : (pageRequests first tokens).length = tokens.length + 1 := by
+  simp [pageRequests]
 
 /-! ### non-vacuity, and the call sequence on which "fresh on every call" fails -/
 
@@ -696,6 +792,19 @@ example : (∀ fd ∈ mCreate.input, '.' ∉ fd.name.toList) ∧ '.' ∈ "inner.
 example : getMethod demoApi "p.S.Watch" = some mWatch ∧ mWatch.serverStreaming = true := by decide
 example : 2 ≤ (([⟨"p.S.Create", ["name"]⟩, ⟨"p.S.Watch", []⟩, ⟨"p.S.Create", []⟩] : List Settings).filter
     (fun s => s.selector == "p.S.Create")).length := by decide
+
+-- `none` mode, the settings lookup in either order, the import gate, pages
+example : (call demoGen mCreate (some ⟨"p.S.Create", ["request_id", "opt_id"]⟩) .restAsyncio .none [("request_id", "ignored")] 3).1 =
+    some [("request_id", "$3"), ("opt_id", "$4")] := by decide
+example : settingsFor [⟨"p.S.Watch", []⟩, ⟨"p.S.Create", ["request_id"]⟩] "p.S.Create" = some ⟨"p.S.Create", ["request_id"]⟩ ∧
+    settingsFor [⟨"p.S.Create", ["request_id"]⟩, ⟨"p.S.Watch", []⟩] "p.S.Create" = some ⟨"p.S.Create", ["request_id"]⟩ ∧
+    settingsFor [⟨"p.S.Watch", []⟩] "p.S.Create" = none := by decide
+example : importsUuid [⟨"p.S.Watch", []⟩, ⟨"p.S.Create", ["request_id"]⟩] = true ∧ importsUuid [] = false := by decide
+example : callChecked demoGen [⟨"p.S.Watch", []⟩, ⟨"p.S.Create", ["request_id"]⟩] mCreate .sync .dict [("name", "n")] 0 =
+    some [("name", "n"), ("request_id", "$0")] := by decide
+example : pageRequests [("request_id", "$0")] ["t1", "t2"] =
+    [[("request_id", "$0")], [("request_id", "$0"), ("page_token", "t1")], [("request_id", "$0"), ("page_token", "t2")]] := by decide
+example : ∀ s ∈ ([⟨"p.S.Watch", []⟩] : List Settings), s.selector ≠ mCreate.selector := by decide
 
 /-- The statement wants a fresh id on EVERY call in which the caller left the field unset. The caller
 builds one request object, leaves `request_id` unset and calls twice: the emitted code wrote the first id
